@@ -60,17 +60,36 @@ EXPLANATION = (
     "C20_serialisable_with_spawned_tasks: every schedule after which all created tasks have ended ends in the serial run of the "
     "tasks that took effect, in an order that lists every creator's block before the tasks it created (any spawn shape, both "
     "backends, with cancellations); a store whose set() skips the lock for such a task provably loses the write. "
+    "Time (TSys = SpSys + clock): the awaits inside edit_state bodies take `dur t k` seconds (a slow call inside the block: "
+    "seconds to a day), `tick d` lets d seconds pass, a task asleep at such an await cannot run before it is over (a "
+    "cancellation request wakes it at once); nothing else depends on the clock - the store modules use no timer primitive "
+    "(C20_source_shape_timer_free, from the source: no wait_for / timeout / sleep / call_later), so a task queued on the "
+    "lock waits for as long as the block is open. C20_open_block_duration_is_invisible: every timed run is the untimed run "
+    "of the schedule without its ticks (same store, holder, FIFO, positions, log), a tick is always possible and changes "
+    "the clock only, an enabled action stays enabled however much later; C20_serialisable_whatever_the_durations: hence the "
+    "serial-order theorem for every assignment of durations; C20_lock_wait_timeout_loses_update: a store whose short "
+    "operations give up waiting for the lock after 30 s and run anyway loses the set_state on both backends as soon as a "
+    "block stays open longer (6 actions), and is indistinguishable from the real one with shorter blocks. "
     "Tie: lock flags from source (C20_source_shape, C20_source_shape_scoped_lock break when a writer leaves the lock or the lock "
     "is used other than through `async with`); real InMemoryStateStore and SqliteStateStore are driven by real asyncio Tasks "
-    "under a scripted scheduler, one await-free section or one Task.cancel() per action, over all interleavings of 2-3 "
+    "under a scripted scheduler with virtual time (harness/sloop.py: a running loop, current_task and working timers exist "
+    "for the code under test; set-up and read-back calls run as tasks on it too), one await-free section, one Task.cancel() "
+    "or one tick (the clock jumps to the earliest pending timer when no section is ready) per action, over all interleavings of 2-3 "
     "operations with 0-2 cancellable tasks and 0-2 tasks that an edit_state body creates from inside its block (real "
     "loop.create_task in the creator's task context, so the child inherits its contextvars) (seeded random schedules for 4-5 "
     "and beyond the cap), and after every action store "
-    "content, lock holder, waiter FIFO, per-task position (incl. pending cancellation: Ic / Wc / Wm / Bkc, ended: D / X / A) and "
-    "log are diffed against the model driver. Monitors (model-independent): final state is one of the serial outcomes, computed "
+    "content, lock holder, waiter FIFO, per-task position (incl. pending cancellation: Ic / Wc / Wm / Bkc, ended: D / X / A), "
+    "log, the clock after a tick, and the set of tasks that have a section ready (`cready`: both directions - a task the "
+    "implementation makes runnable although it is asleep or queued behind a held lock diverges) are diffed against the "
+    "model driver. Slow-block scenarios (gen2t/3t/45t/3tc/3ts): awaits inside blocks take 1 s .. 1 day of virtual time while "
+    "the other tasks set / set_state / clear / edit the keys the block works on. Monitors (model-independent): final state is one of the serial outcomes, computed "
     "on the real store, of the operations that took effect (a created task's operation is one more operation and cannot "
     "precede the block that creates it); both backends reach the same set of final states; snapshots taken "
-    "mid-schedule keep their top-level mapping; no task is left stuck (a cancelled waiter must not block the lock)."
+    "mid-schedule keep their top-level mapping; no task is left stuck (a cancelled waiter must not block the lock); "
+    "no write operation returns, and no second block is entered, while another task is between entry and exit of an "
+    "edit_state block (harness bookkeeping only); every final state of a slow-block scenario is also a final state of the "
+    "same scenario with bare yields (the time a block stays open does not matter); the same with a reader (`get`) among "
+    "the tasks (monitors only)."
 )
 LEVEL_TEXT = "proof (Lean 4) of the model + per-action correspondence with both real stores under a scripted scheduler + direct monitors"
 ASSUMPTIONS = [
@@ -93,13 +112,17 @@ ASSUMPTIONS = [
     "own child's store operation dead-locks by design of the non re-entrant lock)",
     "one process, one store object per run: SqliteStateStore's lock is per object; two store objects (or processes) on the same "
     "run_id are outside the property as stated ('steps update the same run's state store')",
-    "readers (get / get_state) take part only as snapshot probes of the monitors; C20 is about the final state",
+    "readers (get / get_state) take part as snapshot probes of the monitors and, in the gen3tr* scenarios, as tasks that queue "
+    "on the lock with the writers (monitors only, no correspondence); C20 is about the final state",
+    "time: sections take no time; virtual time passes only when no section is ready (the semantics of an idle event loop "
+    "jumping to its next timer), by exactly the distance to the earliest pending timer; in the model a tick of any length is "
+    "possible at any point (a superset). Durations are whole seconds",
     "edit_state bodies that raise are exercised in the correspondence only (memory keeps the partial edit, SQLite drops it; see C19)",
     "value/path semantics of the operations are those of C19 (same model, same assumptions)",
 ]
 TRUSTED_EXTRA = [
-    "harness/sloop.py: scripted scheduler over asyncio.BaseEventLoop (CPython private attributes _ready, Handle._run, "
-    "Task._fut_waiter, Task._must_cancel, Lock._locked, Lock._waiters)",
+    "harness/sloop.py: scripted scheduler with virtual time over asyncio.BaseEventLoop (CPython private attributes _ready, "
+    "_scheduled, Handle._run, TimerHandle._when, Task._fut_waiter, Task._must_cancel, Lock._locked, Lock._waiters)",
     "harness/ss_common.py, harness/ss_models.py, harness/gen/statestore.py (shared with C19)",
 ]
 
@@ -813,11 +836,14 @@ def run(env: Env) -> Outcome:
     from .. import ss_common as S
 
     out = Outcome()
-    out.rule = ("per action (section of a task / Task.cancel()): driver(Sys mem/sql) == observed (store content, lock holder, waiter "
-                "FIFO, task positions incl. pending cancellations and tasks not created yet, log); monitors: final state of every "
+    out.rule = ("per action (section of a task / Task.cancel() / tick of virtual time): driver(TSys mem/sql) == observed (store "
+                "content, lock holder, waiter FIFO, task positions incl. pending cancellations and tasks not created yet, log, "
+                "clock, set of ready tasks); monitors: final state of every "
                 "interleaving is a serial outcome, on the real store, of the operations that took effect (all of them without "
                 "cancellation; a task created inside an edit_state block after that block); both backends "
-                "reach the same set of final states; mid-run snapshots keep their top level; nothing is stuck")
+                "reach the same set of final states; mid-run snapshots keep their top level; nothing is stuck; no write returns "
+                "while another task's edit_state block is open; blocks held open for 1 s .. 1 day of virtual time reach only final "
+                "states that bare yields reach too")
     sqlenv = S.SqlEnv()
     explorers: list[tuple[str, Explorer]] = []
     try:
